@@ -516,6 +516,14 @@ def cdMerged (s : Lsm) (cd : CompactDef) : List Ent :=
   mergeAll ((if cd.thisLevel == 0 then (cdTops s cd).reverse.map (·.ents) else (cdTops s cd).map (·.ents)) ++
     [botEnts s cd])
 
+/-- an L0 table that is not compacted has a user-key range overlapping the range of the L0 tables
+    that are. Since the F28 repair of `fillTablesL0ToLbase` the picker never makes such a choice. -/
+def cdLeftBehind (s : Lsm) (cd : CompactDef) : Bool :=
+  cd.thisLevel == 0 && (removeIdx (cdThisT s cd) cd.top).any (fun t =>
+    match t.keyRange with
+    | some d => rangeOverlaps (rangeOfTables (cdTops s cd)) d
+    | none => false)
+
 /-- the `hasOverlap` flag of `subcompact`; since the F1 repair (badger commit d24306c) an L0 → L0
     compaction always keeps its markers -/
 def cdHasOverlap (s : Lsm) (cd : CompactDef) : Bool :=
@@ -816,6 +824,168 @@ theorem topsOldest_of_layered {s : Lsm} {cd : CompactDef} (h : LsmInv s) (hl : L
     omega
   exact layered_l0 hl hthis hj hj' hlt hx het' hk
 
+/-- `reads_core` with the "kept tables do not hold the key" fact as a hypothesis (level 0 has no
+    key-disjointness to derive it from) -/
+theorem reads_core' {s : Lsm} {cd : CompactDef} {d n now' now ts : Nat} {k : Bytes} (h : LsmInv s)
+    (hc : CompactOk s cd) (hdp : cd.dropPrefixes = [])
+    (hts : d ≤ ts) (hnow : now' ≤ now) {U Z : Option Ent}
+    (hK : cdHasOverlap s cd = false → ∀ e, newestLE (cdMerged s cd) k ts = some e →
+      deletedOrExpired e.emeta e.exp now' = true →
+      newestLE (compactOutput s cd d n now').1 k ts = none → newestLE (keptEnts s cd) k ts = none)
+    (hZ : cdHasOverlap s cd = false → ∀ e ∈ topEnts s cd ++ botEnts s cd, e.key = k → Z = none)
+    (hU : cdHasOverlap s cd = false → ∀ x e, U = some x → e ∈ topEnts s cd ++ botEnts s cd → e.key = k →
+      e.ver ≤ x.ver) :
+    visible now (pick U (pick (newestLE (compactOutput s cd d n now').1 k ts)
+        (pick (newestLE (keptEnts s cd) k ts) Z))) =
+      visible now (pick U (pick (newestLE (cdMerged s cd) k ts) (pick (newestLE (keptEnts s cd) k ts) Z))) := by
+  have hK' := hK
+  rw [compactOutput_eq hdp] at hK' ⊢
+  simp only at hK' ⊢
+  apply read_fallthrough
+  have hp : ({ discardTs := d, numKeep := n, hasOverlap := cdHasOverlap s cd, now := now', dropPrefixes := [] } : CParams).discardTs ≤ ts := hts
+  rcases C12_filter_reads_refined (merged_sorted h hc) rfl hp k with heq | ⟨hnone, hov, e, he, hdead⟩
+  · exact .inl heq
+  · right
+    obtain ⟨m1, m2, _, _⟩ := newestLE_some he
+    have hin : e ∈ topEnts s cd ++ botEnts s cd := List.mem_append.mpr (mem_merged m1)
+    refine ⟨hnone, e, he, deletedOrExpired_mono hnow hdead, ?_, fun x hx => hU hov x e hx hin m2⟩
+    rw [hK' hov e he hdead hnone, hZ hov e hin m2]; rfl
+
+/-! ### user-key ranges -/
+
+theorem kle_antisymm {a b : Bytes} (h1 : kle a b) (h2 : kle b a) : a = b := by
+  rcases kle_iff.mp h1 with h | h
+  · exact absurd h h2
+  · exact h
+
+theorem kle_total (a b : Bytes) : kle a b ∨ kle b a := by
+  rcases klt_tri a b with h | h | h
+  · exact .inl (kle_of_klt h)
+  · subst h; exact .inl (kle_refl _)
+  · exact .inr (kle_of_klt h)
+
+theorem keyRange_of_ok {t : Tbl} (h : TblOk t) :
+    ∃ a b, t.smallest = some a ∧ t.biggest = some b ∧ t.keyRange = some (a.key, b.key) ∧ kle a.key b.key := by
+  obtain ⟨a, ha⟩ := smallest_some h.1
+  obtain ⟨b, hb⟩ := biggest_some h.1
+  refine ⟨a, b, ha, hb, by unfold Tbl.keyRange; rw [ha, hb], ?_⟩
+  exact tbl_keys_ge_smallest h.2 ha b (biggest_mem hb)
+
+/-- `r` is the user-key hull of the (non-empty) tables `S` -/
+def RangeOf (S : List Tbl) (r : Option (Bytes × Bytes)) : Prop :=
+  match r with
+  | none => S = []
+  | some (lo, hi) =>
+    (∀ t ∈ S, ∀ x ∈ t.ents, kle lo x.key ∧ kle x.key hi) ∧
+    (∃ t ∈ S, ∃ x ∈ t.ents, x.key = lo) ∧ (∃ t ∈ S, ∃ x ∈ t.ents, x.key = hi)
+
+theorem rangeOf_extend {S : List Tbl} {r : Option (Bytes × Bytes)} (hr : RangeOf S r) {t : Tbl} (ht : TblOk t)
+    {a b : Ent} (ha : t.smallest = some a) (hb : t.biggest = some b) :
+    RangeOf (S ++ [t]) (rangeExtend r (a.key, b.key)) := by
+  have hin : ∀ x ∈ t.ents, kle a.key x.key ∧ kle x.key b.key :=
+    fun x hx => ⟨tbl_keys_ge_smallest ht.2 ha x hx, tbl_keys_le_biggest ht.2 hb x hx⟩
+  cases r with
+  | none =>
+    unfold RangeOf at hr; subst hr
+    simp only [rangeExtend, RangeOf, List.nil_append, List.mem_singleton, forall_eq, exists_eq_left]
+    exact ⟨hin, ⟨a, smallest_mem ha, rfl⟩, ⟨b, biggest_mem hb, rfl⟩⟩
+  | some p =>
+    obtain ⟨lo, hi⟩ := p
+    obtain ⟨h1, ⟨t1, ht1, x1, hx1, e1⟩, ⟨t2, ht2, x2, hx2, e2⟩⟩ := hr
+    simp only [rangeExtend, RangeOf]
+    refine ⟨?_, ?_, ?_⟩
+    · intro t' ht' x hx
+      have hx' : (kle lo x.key ∧ kle x.key hi) ∨ (kle a.key x.key ∧ kle x.key b.key) := by
+        rcases List.mem_append.mp ht' with h | h
+        · exact .inl (h1 t' h x hx)
+        · simp at h; subst h; exact .inr (hin x hx)
+      constructor
+      · by_cases hc : cmpBytes a.key lo = .lt
+        · simp only [hc, beq_self_eq_true, if_true]
+          rcases hx' with h | h
+          · exact kle_trans (kle_of_klt hc) h.1
+          · exact h.1
+        · have : (cmpBytes a.key lo == .lt) = false := by simp [hc]
+          simp only [this, Bool.false_eq_true, if_false]
+          rcases hx' with h | h
+          · exact h.1
+          · exact kle_trans hc h.1
+      · by_cases hc : cmpBytes b.key hi = .gt
+        · simp only [hc, beq_self_eq_true, if_true]
+          rcases hx' with h | h
+          · exact kle_trans h.2 (kle_of_klt ((cmpBytes_gt_iff _ _).mp hc))
+          · exact h.2
+        · have : (cmpBytes b.key hi == .gt) = false := by simp [hc]
+          simp only [this, Bool.false_eq_true, if_false]
+          rcases hx' with h | h
+          · exact h.2
+          · exact kle_trans h.2 (fun hlt => hc ((cmpBytes_gt_iff _ _).mpr hlt))
+    · by_cases hc : cmpBytes a.key lo = .lt
+      · simp only [hc, beq_self_eq_true, if_true]
+        exact ⟨t, by simp, a, smallest_mem ha, rfl⟩
+      · have : (cmpBytes a.key lo == .lt) = false := by simp [hc]
+        simp only [this, Bool.false_eq_true, if_false]
+        exact ⟨t1, List.mem_append_left _ ht1, x1, hx1, e1⟩
+    · by_cases hc : cmpBytes b.key hi = .gt
+      · simp only [hc, beq_self_eq_true, if_true]
+        exact ⟨t, by simp, b, biggest_mem hb, rfl⟩
+      · have : (cmpBytes b.key hi == .gt) = false := by simp [hc]
+        simp only [this, Bool.false_eq_true, if_false]
+        exact ⟨t2, List.mem_append_left _ ht2, x2, hx2, e2⟩
+
+theorem rangeOf_foldl {f : Option (Bytes × Bytes) → Tbl → Option (Bytes × Bytes)}
+    (hf : ∀ r t d, t.keyRange = some d → f r t = rangeExtend r d)
+    {S ts : List Tbl} {r : Option (Bytes × Bytes)} (hr : RangeOf S r) (hok : ∀ t ∈ ts, TblOk t) :
+    RangeOf (S ++ ts) (ts.foldl f r) := by
+  induction ts generalizing S r with
+  | nil => simpa using hr
+  | cons t ts ih =>
+    obtain ⟨a, b, ha, hb, hkr, _⟩ := keyRange_of_ok (hok t (by simp))
+    simp only [List.foldl_cons, hf r t _ hkr]
+    have := ih (rangeOf_extend hr (hok t (by simp)) ha hb) (fun t' ht' => hok t' (List.mem_cons_of_mem _ ht'))
+    simpa using this
+
+theorem rangeOfTables_spec {ts : List Tbl} (hok : ∀ t ∈ ts, TblOk t) : RangeOf ts (rangeOfTables ts) := by
+  unfold rangeOfTables
+  have h := fun f hf => @rangeOf_foldl f hf [] ts none (by simp [RangeOf]) hok
+  simp only [List.nil_append] at h
+  apply h
+  intro r t d hd; simp only [hd]
+
+/-- an L0 → Lbase choice that leaves no overlapping L0 table behind: the tables left in L0 share no
+    user key with the tops — whatever the order of L0 -/
+theorem topsOldest_of_noLeftBehind {s : Lsm} {cd : CompactDef} (h : LsmInv s) (hth : cd.thisLevel < s.levels.length)
+    (h0 : cd.thisLevel = 0) (hlb : cdLeftBehind s cd = false) : TopsOldest s cd := by
+  have hthis := levels_getD hth
+  have hok : ∀ t ∈ cdThisT s cd, TblOk t := (h.level hthis).1
+  have htok : ∀ t ∈ cdTops s cd, TblOk t := fun t ht => hok t (tops_mem ht)
+  unfold cdLeftBehind at hlb
+  simp only [h0, beq_self_eq_true, Bool.true_and] at hlb
+  intro t ht x hx t' ht' e he hk
+  exfalso
+  have hno := List.any_eq_false.mp hlb t ht
+  obtain ⟨a, b, ha, hb, hkr, _⟩ := keyRange_of_ok (hok t ((removeIdx_sublist _ _).subset ht))
+  rw [hkr] at hno
+  simp only [Bool.not_eq_true] at hno
+  have hsp := rangeOfTables_spec htok
+  cases hr : rangeOfTables (cdTops s cd) with
+  | none =>
+    rw [hr] at hsp; unfold RangeOf at hsp; rw [hsp] at ht'; simp at ht'
+  | some p =>
+    obtain ⟨lo, hi⟩ := p
+    rw [hr] at hsp hno
+    obtain ⟨hcov, _, _⟩ := hsp
+    obtain ⟨h1, h2⟩ := hcov t' ht' e he
+    have hx1 := tbl_keys_ge_smallest (hok t ((removeIdx_sublist _ _).subset ht)).2 ha x hx
+    have hx2 := tbl_keys_le_biggest (hok t ((removeIdx_sublist _ _).subset ht)).2 hb x hx
+    unfold rangeOverlaps at hno
+    simp only [Bool.and_eq_false_iff, bne_eq_false_iff_eq] at hno
+    rcases hno with h3 | h3
+    · -- lo > b.key, but lo ≤ e.key = x.key ≤ b.key
+      exact (kle_trans h1 (hk ▸ hx2)) ((cmpBytes_gt_iff _ _).mp h3)
+    · -- hi < a.key, but a.key ≤ x.key = e.key ≤ hi
+      exact (kle_trans hx1 (hk ▸ h2)) h3
+
 /-- a table that stays on the level of the tops holds newer versions (L0, by `TopsOldest`), or shares
     no user key with them (levels `≥ 1`) -/
 theorem rem_vs_tops {s : Lsm} {cd : CompactDef} (h : LsmInv s) (hc : CompactOk s cd)
@@ -902,17 +1072,22 @@ theorem compact_reads_two {s s' : Lsm} {cd : CompactDef} {d n now' now ts : Nat}
     unfold newLevels; rw [if_neg hne]
   rw [hnl, readLv_two k ts hpq hq, readLv_two_self k ts hpq hq, thisT_eq (by omega), nextT_eq hq, hM,
     nl_this_split h hc hne, nl_next_old h hc hne hn, nl_next_new h hv hc hsp hn]
-  have core := reads_core (s := s) (cd := cd) (d := d) (n := n) (now' := now') (now := now) (ts := ts) (k := k)
-    h hv hc hdp hn hts hnow
+  have core := reads_core' (s := s) (cd := cd) (d := d) (n := n) (now' := now') (now := now) (ts := ts) (k := k)
+    h hc hdp hts hnow
     (U := pick (pick (newestLE (memEnts s) k ts) (readLv k ts 0 (s.levels.take cd.thisLevel)))
       (newestLE (lvlChunk cd.thisLevel (removeIdx (cdThisT s cd) cd.top)) k ts))
     (Z := readLv k ts (cd.nextLevel + 1) (s.levels.drop (cd.nextLevel + 1)))
+    (by
+      intro _ e he _ _
+      obtain ⟨m1, m2, _, _⟩ := newestLE_some he
+      have := kept_no_key h hv hc hn (List.mem_append.mpr (mem_merged m1)) ts
+      rwa [m2] at this)
     (by
       intro hov e he hk
       have := below_no_key h hv hc hov he ts
       rwa [hk] at this)
     (by
-      intro x e hx he hk
+      intro _ x e hx he hk
       rcases pick_some hx with ⟨h1, _⟩ | ⟨h1, _⟩
       · exact upper_rec h hl hc (by omega) h1 he hk
       · obtain ⟨m1, m2, _, _⟩ := newestLE_some h1
@@ -1347,33 +1522,6 @@ theorem kvFun_chunk {i : Nat} {l : List Tbl} (hs : ∀ t ∈ l, SortedEnts t.ent
   · subst heq; exact sorted_unique (hs _ ha) hxa hyb hk hv
   · exact absurd hv.symm (hp ib ia hib hia hgt y hyb x hxa hk.symm)
 
-/-- `reads_core` with the "kept tables do not hold the key" fact as a hypothesis (level 0 has no
-    key-disjointness to derive it from) -/
-theorem reads_core' {s : Lsm} {cd : CompactDef} {d n now' now ts : Nat} {k : Bytes} (h : LsmInv s)
-    (hc : CompactOk s cd) (hdp : cd.dropPrefixes = [])
-    (hts : d ≤ ts) (hnow : now' ≤ now) {U Z : Option Ent}
-    (hK : cdHasOverlap s cd = false → ∀ e, newestLE (cdMerged s cd) k ts = some e →
-      deletedOrExpired e.emeta e.exp now' = true →
-      newestLE (compactOutput s cd d n now').1 k ts = none → newestLE (keptEnts s cd) k ts = none)
-    (hZ : cdHasOverlap s cd = false → ∀ e ∈ topEnts s cd ++ botEnts s cd, e.key = k → Z = none)
-    (hU : cdHasOverlap s cd = false → ∀ x e, U = some x → e ∈ topEnts s cd ++ botEnts s cd → e.key = k →
-      e.ver ≤ x.ver) :
-    visible now (pick U (pick (newestLE (compactOutput s cd d n now').1 k ts)
-        (pick (newestLE (keptEnts s cd) k ts) Z))) =
-      visible now (pick U (pick (newestLE (cdMerged s cd) k ts) (pick (newestLE (keptEnts s cd) k ts) Z))) := by
-  have hK' := hK
-  rw [compactOutput_eq hdp] at hK' ⊢
-  simp only at hK' ⊢
-  apply read_fallthrough
-  have hp : ({ discardTs := d, numKeep := n, hasOverlap := cdHasOverlap s cd, now := now', dropPrefixes := [] } : CParams).discardTs ≤ ts := hts
-  rcases C12_filter_reads_refined (merged_sorted h hc) rfl hp k with heq | ⟨hnone, hov, e, he, hdead⟩
-  · exact .inl heq
-  · right
-    obtain ⟨m1, m2, _, _⟩ := newestLE_some he
-    have hin : e ∈ topEnts s cd ++ botEnts s cd := List.mem_append.mpr (mem_merged m1)
-    refine ⟨hnone, e, he, deletedOrExpired_mono hnow hdead, ?_, fun x hx => hU hov x e hx hin m2⟩
-    rw [hK' hov e he hdead hnone, hZ hov e hin m2]; rfl
-
 theorem kvFun_subset {L L' : List Ent} (hf : KVFun L) (hsub : ∀ x ∈ L', x ∈ L) : KVFun L' :=
   fun x hx y hy hk hv => hf x (hsub x hx) y (hsub y hy) hk hv
 
@@ -1625,6 +1773,89 @@ theorem tblsFun_of_distinct {l : List Tbl} (hs : ∀ t ∈ l, SortedEnts t.ents)
 
 theorem tblsFun_of_unique {s : Lsm} {cd : CompactDef} (hu : KeyVerUnique s) (h : LsmInv s) (hb : CdBase s cd) :
     TblsFun (cdThisT s cd) := tblsFun_of_chunk (keyVerUnique_l0 hu h hb)
+
+/-! ## re-ordering level 0 (what `Open` does: it sorts L0 by file id) -/
+
+theorem mem_allEntries_resort {s : Lsm} {l0 l0' : List Tbl} {rest : List (List Tbl)} (hl : s.levels = l0 :: rest)
+    (hp : l0'.Perm l0) (e : Ent) :
+    e ∈ ({ s with levels := l0' :: rest } : Lsm).allEntries ↔ e ∈ s.allEntries := by
+  rw [mem_allEntries, mem_allEntries]
+  constructor
+  · rintro (h | h | ⟨i, tbls, t, hi, ht, het⟩)
+    · exact .inl h
+    · exact .inr (.inl h)
+    · right; right
+      cases i with
+      | zero => simp at hi; subst hi; exact ⟨0, l0, t, by rw [hl]; rfl, hp.subset ht, het⟩
+      | succ j => simp at hi; exact ⟨j + 1, tbls, t, by rw [hl]; simpa using hi, ht, het⟩
+  · rintro (h | h | ⟨i, tbls, t, hi, ht, het⟩)
+    · exact .inl h
+    · exact .inr (.inl h)
+    · right; right
+      rw [hl] at hi
+      cases i with
+      | zero => simp at hi; subst hi; exact ⟨0, l0', t, rfl, hp.symm.subset ht, het⟩
+      | succ j => simp at hi; exact ⟨j + 1, tbls, t, by simpa using hi, ht, het⟩
+
+theorem resort_inv {s : Lsm} {l0 l0' : List Tbl} {rest : List (List Tbl)} (h : LsmInv s) (hl : s.levels = l0 :: rest)
+    (hp : l0'.Perm l0) : LsmInv ({ s with levels := l0' :: rest } : Lsm) := by
+  have h0 := h.level (i := 0) (tbls := l0) (by rw [hl]; rfl)
+  refine ⟨h.1, h.2.1, ?_, fun e he => h.2.2.2 e ((mem_allEntries_resort hl hp e).mp he)⟩
+  rintro ⟨i, tbls⟩ hpz
+  have hi := (mem_zipIdx _ _ _).mp hpz
+  cases i with
+  | zero =>
+    simp at hi; subst hi
+    exact ⟨fun t ht => h0.1 t (hp.subset ht), by simp⟩
+  | succ j =>
+    simp at hi
+    exact h.level (i := j + 1) (by rw [hl]; simpa using hi)
+
+theorem resort_layeredX {s : Lsm} {l0 l0' : List Tbl} {rest : List (List Tbl)} (h : LayeredX s)
+    (hl : s.levels = l0 :: rest) (hp : l0'.Perm l0) : LayeredX ({ s with levels := l0' :: rest } : Lsm) := by
+  obtain ⟨p1, p2, p3⟩ := (layeredX_iff s).mp h
+  rw [layeredX_iff]
+  have hmem : memEnts ({ s with levels := l0' :: rest } : Lsm) = memEnts s := rfl
+  refine ⟨p1, ?_, ?_⟩
+  · intro x hx i tbls t hi ht e he hk
+    rw [hmem] at hx
+    cases i with
+    | zero => simp at hi; subst hi; exact p2 x hx 0 l0 t (by rw [hl]; rfl) (hp.subset ht) e he hk
+    | succ j => simp at hi; exact p2 x hx (j + 1) tbls t (by rw [hl]; simpa using hi) ht e he hk
+  · intro i i' tbls tbls' t t' hi hi' hlt ht ht'
+    cases i' with
+    | zero => omega
+    | succ j' =>
+      simp at hi'
+      have hi'' : s.levels[j' + 1]? = some tbls' := by rw [hl]; simpa using hi'
+      cases i with
+      | zero => simp at hi; subst hi; exact p3 0 (j' + 1) l0 tbls' t t' (by rw [hl]; rfl) hi'' hlt (hp.subset ht) ht'
+      | succ j => simp at hi; exact p3 (j + 1) (j' + 1) tbls tbls' t t' (by rw [hl]; simpa using hi) hi'' hlt ht ht'
+
+theorem resort_keyVerUnique {s : Lsm} {l0 l0' : List Tbl} {rest : List (List Tbl)} (hu : KeyVerUnique s)
+    (hl : s.levels = l0 :: rest) (hp : l0'.Perm l0) : KeyVerUnique ({ s with levels := l0' :: rest } : Lsm) :=
+  kvFun_subset hu (fun x hx => (mem_allEntries_resort hl hp x).mp hx)
+
+/-- reads do not depend on the order of the L0 tables when an internal key determines the entry -/
+theorem resort_get {s : Lsm} {l0 l0' : List Tbl} {rest : List (List Tbl)} (h : LsmInv s) (hl : s.levels = l0 :: rest)
+    (hp : l0'.Perm l0) (hf : TblsFun l0) (k : Bytes) (ts : Nat) :
+    ({ s with levels := l0' :: rest } : Lsm).get k ts = s.get k ts := by
+  rw [get_eq_newestLE (lsmInv_weaken (resort_inv h hl hp)), get_eq_newestLE (lsmInv_weaken h),
+    newestLE_allEntries, newestLE_allEntries, hl]
+  have hmem : memEnts ({ s with levels := l0' :: rest } : Lsm) = memEnts s := rfl
+  rw [hmem]
+  simp only [readLv]
+  have hf' : TblsFun l0' := fun a ha b hb => hf a (hp.subset ha) b (hp.subset hb)
+  have : newestLE (lvlChunk 0 l0') k ts = pick (newestLE (lvlChunk 0 l0) k ts) (newestLE [] k ts) := by
+    apply newestLE_union_kv (tblsFun_chunk hf')
+    intro e
+    rw [mem_lvlChunk, mem_lvlChunk]
+    constructor
+    · rintro ⟨t, ht, he⟩; exact .inl ⟨t, hp.subset ht, he⟩
+    · rintro (⟨t, ht, he⟩ | h0)
+      · exact ⟨t, hp.symm.subset ht, he⟩
+      · simp at h0
+  rw [this]; simp
 
 end LL
 end Badger
